@@ -977,7 +977,13 @@ fn run_http(ops: &[Op], dir: &Path) -> Result<Vec<Obs>> {
       std::thread::sleep(std::time::Duration::from_millis(10));
     }
     if up {
-      break;
+      // a bind failure surfaces within milliseconds; if our task ended, the answer came from a
+      // foreign server on that port
+      std::thread::sleep(std::time::Duration::from_millis(50));
+      if !task.is_finished() {
+        break;
+      }
+      up = false;
     }
     task.abort();
   }
